@@ -260,7 +260,7 @@ def interp3d_contract(eng, st, args):
     vals = _leaves(eng, st, args[2])
     lo, hi = _minmax(vals)
     v = eng.fresh("interp3d")
-    st.assume(z3.And(v >= lo, v <= hi))
+    st.define(z3.And(v >= lo, v <= hi))
     _pin(eng, v, vals)
     return [(st, _Enum("Result", 0, [v]))]
 
@@ -273,7 +273,7 @@ def interp1d_contract(eng, st, args):
         return None  # derating tables ([0, pwr_out_max]) are executed exactly; only efficiency maps use the contract
     lo, hi = _minmax(ys)
     v = eng.fresh("interp1d")
-    st.assume(z3.And(v >= lo, v <= hi))
+    st.define(z3.And(v >= lo, v <= hi))
     _pin(eng, v, ys)
     return [(st, _Enum("Result", 0, [v]))]
 
